@@ -931,6 +931,13 @@ func panicString(v value) string {
 		switch x := i.v.(type) {
 		case string:
 			return x
+		case *opaque:
+			if ee, isErr := x.p.(*engError); isErr {
+				if s, isStr := ee.msg.(string); isStr {
+					return "error: " + s
+				}
+				return "error: <symbolic text>"
+			}
 		}
 		if i.t != nil {
 			return fmt.Sprintf("(%s) %v", i.t, summarize(i.v))
